@@ -447,7 +447,7 @@ def Y4(ctx):
         ctx.missing("Y4", fn_key)
         return
     ea = EventAnalysis(prog, _table_matcher).solve([root])
-    got = dispatch_table(prog, root, "_1.0", ea, ORDERINGS)
+    got = dispatch_table(prog, root, "ordering", ea, ORDERINGS)
     if got is None:
         ctx.missing("Y4", fn_key, "no dispatch on the fence ordering")
         return
